@@ -184,6 +184,24 @@ def _compose_checks_tags(chk, prog, comp):
     return True, ""
 
 
+def _compose_gate(chk, prog, cls):
+    """(holds, why, override): does the loader reject, when a node is COMPOSED, every tag without an exact constructor?"""
+    comp = None
+    for q in cls.mro:
+        c = prog.classes.get(q)
+        f = prog.pick(c.methods.get("compose_node", [])) if c is not None else None
+        if f is not None:
+            comp = f
+            break
+    if comp is None:
+        return False, "the loader neither checks every node when it is composed (no compose_node override) nor guards these consumers", None
+    facts = libfacts.yaml_tag_skipping_consumers()
+    if [v for k, v in facts.items() if k.startswith("Composer")] == [False]:
+        return False, "the installed Composer does not compose every node through compose_node", comp
+    good, why = _compose_checks_tags(chk, prog, comp)
+    return good, why, comp
+
+
 def constructor_table_writers(chk):
     """O18.8: the loader's constructor table (with the rejecting catch-all entry for unknown tags) only ever GROWS, through
     add_constructor / add_multi_constructor.  Anything that empties, replaces or removes from it -- a 'reset' after a
@@ -238,6 +256,21 @@ def run(chk):
     except Exception:
         chk.missing("O18.1", LOADER)
         cls = None
+    gate = (False, "", None)
+    if cls is not None:
+        try:
+            gate = _compose_gate(chk, prog, cls)
+        except Undecided:
+            gate = (False, "the compose_node override is not understood", None)
+    IMPLIED = "not needed for the property on this tree: every node's tag is checked against the exact constructor table when it is composed (O18.9), so a tag without a constructor never reaches construction -- "
+
+    def unless_gated(rule, where, msg, **kw):
+        """a violation of a construction-time rule, unless the composition-time check makes it unreachable"""
+        if gate[0]:
+            chk.ok(rule, where, IMPLIED + msg[:160], node=kw.get("node"))
+        else:
+            chk.bad(rule, where, msg, **kw)
+
     if cls is not None:
         chk.count(len(cls.mro))
         ext = [q for q in cls.mro if q.startswith("ext:") and q not in ("ext:builtins.object",)]
@@ -260,7 +293,7 @@ def run(chk):
             extra = [n for n in cls.node.body if not isinstance(n, (ast.Expr, ast.Pass)) and not harmless(n)]
             tables = [n for n in extra if isinstance(n, (ast.Assign, ast.AnnAssign)) and any(isinstance(t, ast.Name) and t.id in ("yaml_constructors", "yaml_multi_constructors", "yaml_implicit_resolvers", "yaml_path_resolvers") for t in (n.targets if isinstance(n, ast.Assign) else [n.target]))]
             if tables:
-                chk.bad("O18.1", cls.qual, "the loader class replaces the constructor table it inherits from SafeLoader (%s): the inherited catch-all entry None -> construct_undefined, which rejects every unregistered and every python/* tag, is gone unless it is copied, so such tags are accepted as plain data" % util.unparse(tables[0]).split("=")[0].strip(), node=tables[0], stmt="loader-own-table")
+                unless_gated("O18.1", cls.qual, "the loader class replaces the constructor table it inherits from SafeLoader (%s): the inherited catch-all entry None -> construct_undefined, which rejects every unregistered and every python/* tag, is gone unless it is copied, so such tags are accepted as plain data" % util.unparse(tables[0]).split("=")[0].strip(), node=tables[0], stmt="loader-own-table")
             elif extra:
                 chk.undecided("O18.1", cls.qual, "the loader class has a non-trivial body", node=extra[0])
             else:
@@ -380,7 +413,11 @@ def run(chk):
     sites = unsafe_sites(prog, None)
     chk.count(sum(1 for _ in query.calls(prog)))
     for m, n, why in sites:
-        chk.bad("O18.3", query.where(prog, m, n), "%s: a document could construct arbitrary Python objects" % why, node=n, stmt=why)
+        par_ = util.parents_map(m.tree)
+        up_ = par_.get(id(n))
+        in_multi = why.startswith("add_multi_constructor") or (isinstance(up_, (ast.Call, ast.keyword)) and "add_multi_constructor" in util.unparse(up_ if isinstance(up_, ast.Call) else par_.get(id(up_))))
+        # a constructor for a whole tag PREFIX is only consulted for a tag that has no exact constructor
+        (unless_gated if in_multi else chk.bad)("O18.3", query.where(prog, m, n), "%s: a document could construct arbitrary Python objects" % why, node=n, stmt=why)
     if not sites:
         chk.ok("O18.3", "<package>", "zero calls of yaml.load / load_all / unsafe_load / full_load, no unsafe loader class, no add_multi_constructor, no python/ tag literal")
     # ---- O18.4 add_constructor only for '!' + entry point name ----------------------------------
@@ -405,11 +442,19 @@ def run(chk):
             tag = kw.get("tag", ct[2][0] if ct[2] else None)
             recv = ct[1][1]
             if tag == ("const", None):
-                chk.bad("O18.4", ADD_PLUGINS, "a constructor is registered for tag None: it catches EVERY unregistered tag instead of rejecting it", node=fn.node, stmt="tag None")
+                unless_gated("O18.4", ADD_PLUGINS, "a constructor is registered for tag None: it catches EVERY unregistered tag instead of rejecting it", node=fn.node, stmt="tag None")
+                if gate[0]:
+                    good += 1
                 continue
             tpl = template(tag) if tag is not None else None
             if not (tpl and len(tpl) == 2 and tpl[0] == "!" and isinstance(tpl[1], tuple) and tpl[1][0] == "attr" and tpl[1][2] == "name" and tpl[1][1][0] == "item"):
-                chk.bad("O18.4", ADD_PLUGINS, "constructors are registered under %s instead of '!' + entry point name" % (show(tag) if tag else "nothing"), node=fn.node, stmt="tag %s" % (show(tag) if tag else ""))
+                if tag is None:
+                    chk.bad("O18.4", ADD_PLUGINS, "constructors are registered under nothing instead of '!' + entry point name", node=fn.node, stmt="tag ")
+                else:
+                    # whatever the tag is called, what it constructs is the plugin's own factory
+                    unless_gated("O18.4", ADD_PLUGINS, "constructors are registered under %s instead of '!' + entry point name" % show(tag), node=fn.node, stmt="tag %s" % show(tag))
+                    if gate[0]:
+                        good += 1
                 continue
             if recv != ("sym", "loader") and recv[0] != "sym":
                 chk.bad("O18.4", ADD_PLUGINS, "constructors are registered on %s, not on the loader handed in" % show(recv), node=fn.node, stmt="receiver")
@@ -451,8 +496,10 @@ def run(chk):
                     for h in up.handlers:
                         names = [prog.resolve(m, t) for t in (h.type.elts if isinstance(h.type, ast.Tuple) else [h.type])] if h.type is not None else ["ext:builtins.BaseException"]
                         if any(q in SWALLOW for q in names) and not any(isinstance(x, ast.Raise) for x in util.walk_no_nested(h)):
-                            bad6 += 1
-                            chk.bad(
+                            inner = n.func.attr not in ("get_single_data", "get_data", "construct_document")
+                            if not (gate[0] and inner):
+                                bad6 += 1
+                            (unless_gated if inner else chk.bad)(
                                 "O18.6",
                                 query.where(prog, m, n),
                                 "%s(...) sits in a try whose `except %s` handler does not re-raise: the ConstructorError that rejects a python/* tag or an unregistered !tag below this node is swallowed and the element is built from other data instead of the configuration being rejected" % (n.func.attr, util.unparse(h.type) if h.type is not None else ""),
@@ -487,7 +534,7 @@ def run(chk):
         if good:
             chk.ok("O18.7", override.qual, "the loader checks the tag of every merge value against its constructor table before PyYAML splices the content in", node=override.node)
         else:
-            chk.bad(
+            unless_gated(
                 "O18.7",
                 cls.qual,
                 "a python/* tag or an unregistered !tag on the value of a merge key (`<<: !!python/object/apply:os.system {...}`, `<<: !Nope [{...}]`, also on an element of a list of merge values) is silently ignored instead of rejected: the installed SafeConstructor.flatten_mapping splices value_node.value without ever dispatching value_node.tag, and %s" % why,
@@ -505,16 +552,7 @@ def run(chk):
     skipping = [k for k, v in consumers.items() if v is not False and not k.startswith("Composer")]
     if cls is not None and skipping:
         chk.count(len(skipping))
-        comp = None
-        for q in cls.mro:
-            c = prog.classes.get(q)
-            f = prog.pick(c.methods.get("compose_node", [])) if c is not None else None
-            if f is not None:
-                comp = f
-                break
-        good, why = (False, "the loader neither checks every node when it is composed (no compose_node override) nor guards these consumers")
-        if comp is not None:
-            good, why = _compose_checks_tags(chk, prog, comp)
+        good, why, comp = gate
         if good:
             chk.ok("O18.9", comp.qual, "every composed node whose tag has no constructor is rejected at composition (merge / value tags of mapping keys excepted): covers %s" % "; ".join(skipping), node=comp.node)
         else:
